@@ -140,6 +140,27 @@ Definition c12_run (input : list Z) : list Z :=
           end
       | _ => ERR_DECODE
       end
+    else if kind =? 6 then
+      (* the encoded text: Base64 (model) of the recorded gzip bytes *)
+      match take_lp r with
+      | Some (gz, _) => put_lp (map Z.of_N (sl_encode (fun _ => map Z.to_N gz) []))
+      | None => ERR_DECODE end
+    else if kind =? 7 then
+      (* a text handed to the decoder: Base64 (model), then gzip as recorded for exactly the bytes the model decoded *)
+      match take_lp r with
+      | Some (text, flag :: r1) =>
+          match take_lp r1 with
+          | Some (zb, r2) =>
+              match take_lp r2 with
+              | Some (inf, _) =>
+                  let gunzip (z : list N) : option (list N) :=
+                    if (flag =? 1) && (if list_eq_dec N.eq_dec z (map Z.to_N zb) then true else false) then Some (map Z.to_N inf) else None in
+                  match sl_decode gunzip (map Z.to_N text) with
+                  | Ok l => 0 :: Z.of_nat (length l) :: map Z.of_N (firstn 16 l)
+                  | _ => [1] end
+              | None => ERR_DECODE end
+          | None => ERR_DECODE end
+      | _ => ERR_DECODE end
     else if kind =? 5 then [-5555]      (* dense lists: the encode / decode round trip through gzip is an oracle-only row *)
     else ERR_DECODE
   | [] => ERR_DECODE
